@@ -135,6 +135,12 @@ def plan(ctx):
     return units
 
 
+def unit_cost(unit):
+    mode, fam, table, name = unit
+    return (100 if mode == 'ci' else 0) + {'dir4': 50, 'und5': 40, 'sign': 30, 'und12': 30}.get(fam, 0) + \
+        (20 if 'betweenness' in name or 'gateway' in name or 'efficiency' in name else 0)
+
+
 def permute(kind, val, p):
     v = np.asarray(val, dtype=float)
     if kind == 'v':
